@@ -31,7 +31,7 @@ Lemma terminal_good : forall s, executes s = true -> ctxk (kmode s) = true -> In
   terminal s -> fired s = true -> good s.
 Proof.
   intros s He Hk I T Fi.
-  destruct (facts_all F HF) as (Hkw & Hrw & Hpk & Hsk & Hcl & Hsr & Hsc & Hel & Hef & Hms & Hcp).
+  destruct (facts_all F HF) as (Hkw & Hrw & Hpk & Hsk & Hcl & Hsr & Hsc & Hel & Hef & Hms & Hcp & Hmo & Hmr).
   destruct I as (I1 & I2 & I3 & I4 & I5 & I6 & I7 & I8 & I9 & I10 & I12 & I13 & I15 & I14).
   pose proof (T LMain) as TM. pose proof (T LRunWatch) as TD.
   simpl in TM, TD. unfold main_step in TM. unfold runwatch_step in TD.
@@ -128,8 +128,8 @@ Ltac aset_goal I1 I2 I5 i :=
 Lemma ainv_step : forall F s i s', start_ok F = true -> AInv s -> a_step F s i = Some s' -> AInv s'.
 Proof.
   intros F s i s' HF (I1 & I2 & I3 & I4 & I5) H.
-  unfold start_ok in HF. apply andb_true_iff in HF as [Hl Hr].
-  unfold a_step in H. rewrite Hl, Hr in H. simpl in H.
+  unfold start_ok in HF. apply andb_true_iff in HF as [HF Hs]. apply andb_true_iff in HF as [Hl Hr].
+  unfold a_step in H. rewrite Hl, Hr, Hs in H. simpl in H.
   destruct (a_pc s i) eqn:Ep.
   - (* A0 *) inversion H; subst; clear H. unfold AInv; simpl.
     split; [|split; [|split; [|split]]]; auto.
